@@ -319,8 +319,9 @@ impl PrivateDict {
                 OtherBlues(values) => dict.hint_params.other_blues = values,
                 FamilyOtherBlues(values) => dict.hint_params.family_other_blues = values,
                 BlueScale(value) => dict.hint_params.blue_scale = value,
-                BlueShift(value) => dict.hint_params.blue_shift = value,
-                BlueFuzz(value) => dict.hint_params.blue_fuzz = value,
+                // FreeType reads these with cff_parse_num, which truncates a real operand to an integer
+                BlueShift(value) => dict.hint_params.blue_shift = value.floor(),
+                BlueFuzz(value) => dict.hint_params.blue_fuzz = value.floor(),
                 LanguageGroup(group) => dict.hint_params.language_group = group,
                 // Subrs offset is relative to the private DICT
                 SubrsOffset(offset) => {
